@@ -27,6 +27,9 @@ type Recorder struct {
 	log []Effect
 	// Quiet suppresses bookkeeping calls (AgentLastTimeCalled, AgentUpdate) in the log.
 	Bookkeeping bool
+	// OnAgentAdd, if set, runs right after the real AgentAdd has returned: the first moment
+	// at which an operator can see (and task) the new session.
+	OnAgentAdd func(a *agent.Agent)
 }
 
 var _ agent.TeamServer = (*Recorder)(nil)
@@ -85,7 +88,11 @@ func (r *Recorder) AgentAdd(a *agent.Agent) []*agent.Agent {
 		id = a.NameID
 	}
 	r.add(Effect{Call: "AgentAdd", Agent: id})
-	return r.Teamserver.AgentAdd(a)
+	out := r.Teamserver.AgentAdd(a)
+	if r.OnAgentAdd != nil && a != nil {
+		r.OnAgentAdd(a)
+	}
+	return out
 }
 
 func (r *Recorder) AgentSendNotify(a *agent.Agent) {
